@@ -383,7 +383,7 @@ class Canon:
                 return c
             if x is FALSE and y is TRUE:
                 return self._not(c)
-            if c.op == "cmp" and c.args[0] in ("is not", "!=", "not in"):
+            if c.op == "cmp" and c.args[0] in ("is not", "!=", "not in", "<="):
                 return mk("ite", self._not(c), y, x)
             if c.op == "not":
                 return mk("ite", c.args[0], y, x)
